@@ -51,7 +51,7 @@ func (c *OCSPRevocationChecker) IsRevoked(clientCertificate *x509.Certificate, v
 
 	chains := core.NewCertificateChains(verifiedChains, c.ocspConfig.TrustedResponderCerts)
 	//TODO Support AIA via clientCertificate.IssuingCertificateURL
-	certCandidates, err := core.FindCertificateIssuerCandidates(issuer, &clientCertificate.Extensions, clientCertificate.PublicKeyAlgorithm, chains)
+	certCandidates, err := core.FindCertificateIssuerCandidates(issuer, &clientCertificate.Extensions, issuerKeyAlgorithm(clientCertificate), chains)
 	ocspServerList := c.filterHTTPOCSPServers(clientCertificate.OCSPServer)
 	var output []byte = nil
 	for _, ocspServer := range ocspServerList {
@@ -97,6 +97,22 @@ func (c *OCSPRevocationChecker) IsRevoked(clientCertificate *x509.Certificate, v
 		}, nil
 	}
 
+}
+
+// issuerKeyAlgorithm returns the algorithm of the key which signed the certificate (the key of the issuer, not of the certificate itself)
+func issuerKeyAlgorithm(certificate *x509.Certificate) x509.PublicKeyAlgorithm {
+	switch certificate.SignatureAlgorithm {
+	case x509.MD2WithRSA, x509.MD5WithRSA, x509.SHA1WithRSA, x509.SHA256WithRSA, x509.SHA384WithRSA, x509.SHA512WithRSA,
+		x509.SHA256WithRSAPSS, x509.SHA384WithRSAPSS, x509.SHA512WithRSAPSS:
+		return x509.RSA
+	case x509.ECDSAWithSHA1, x509.ECDSAWithSHA256, x509.ECDSAWithSHA384, x509.ECDSAWithSHA512:
+		return x509.ECDSA
+	case x509.PureEd25519:
+		return x509.Ed25519
+	case x509.DSAWithSHA1, x509.DSAWithSHA256:
+		return x509.DSA
+	}
+	return x509.UnknownPublicKeyAlgorithm
 }
 
 func (c *OCSPRevocationChecker) calculateEvictionTime(response *ocsp.Response) time.Duration {
